@@ -4,6 +4,7 @@
 use vstd::prelude::*;
 verus! {
 //@ include float.rs
+broadcast use f64ax::group_f64_axioms;
 
 //@ extract struct src/graph/adjacent_node.rs AdjacentNode pubfields
 //@ rewrite
